@@ -1,7 +1,8 @@
 /-
 C10  Saving and reloading the array state is lossless: round-trip theorems of the codec.
 Primitive fields are in Codec/Varint.lean (`b32_roundtrip`, `b64_roundtrip`, `str_roundtrip`,
-`le32_roundtrip`, `raw_roundtrip`).  Here: hash lists, block runs and the simple records.
+`le32_roundtrip`, `raw_roundtrip`).  Here: every record kind (`rec_roundtrip`), lists of records and the whole
+file with its CRC (`content_roundtrip`): parse (serialise state) = state for every well-formed state.
 -/
 import SnapraidVerif.Codec.Content
 namespace SnapraidVerif.Props.C10
@@ -99,5 +100,552 @@ theorem simple_records_roundtrip (ctx : Ctx) (crc : W) (rest : Bytes) :
     simp only
     have : sub.isEmpty = false := by cases sub <;> simp_all
     simp [this]
+
+/-- a list of runs that covers the blocks `idx .. blocks` of a file -/
+def RunsWF (ctx : Ctx) (blocks : Nat) : Nat → List Run → Prop
+  | idx, [] => blocks ≤ idx
+  | idx, r :: rs => runWF ctx blocks idx r ∧ RunsWF ctx blocks (idx + r.count) rs
+
+theorem runs_roundtrip (ctx : Ctx) (blocks : Nat) (runs : List Run) (idx fuel : Nat) (rest : Bytes)
+    (h : RunsWF ctx blocks idx runs) (hf : runs.length < fuel) :
+    getRuns ctx blocks fuel idx ((runs.map serRun).flatten ++ rest) = some (runs, rest) := by
+  induction runs generalizing idx fuel with
+  | nil =>
+    cases fuel with
+    | zero => omega
+    | succ f =>
+      simp only [List.map_nil, List.flatten_nil, List.nil_append]
+      unfold getRuns
+      have h' : idx ≥ blocks := h
+      rw [if_pos h']
+  | cons r rs ih =>
+    cases fuel with
+    | zero => omega
+    | succ f =>
+      simp only [List.map_cons, List.flatten_cons, List.append_assoc]
+      rw [run_roundtrip ctx blocks f idx r _ h.1]
+      rw [ih (idx + r.count) f h.2 (by simpa using hf)]
+
+theorem serRun_length_pos (r : Run) : 0 < (serRun r).length := by
+  simp [serRun]
+
+theorem runs_ser_length (runs : List Run) : runs.length ≤ ((runs.map serRun).flatten).length := by
+  induction runs with
+  | nil => simp
+  | cons r rs ih =>
+    have := serRun_length_pos r
+    simp only [List.map_cons, List.flatten_cons, List.length_append, List.length_cons]
+    omega
+
+/-- resolves the record dispatch `if c = ch 'f' then … else if c = ch 'i' …` on a concrete tag -/
+macro "dispatch" : tactic => `(tactic| repeat (first | rw [if_pos (by decide)] | rw [if_neg (by decide)]))
+
+/-- a file record with all its block runs is read back exactly -/
+theorem file_record_roundtrip (ctx : Ctx) (crc : W) (rest : Bytes)
+    (m size sec nsec inode : Nat) (sub : Bytes) (runs : List Run)
+    (hm : m < ctx.mappingMax) (hm32 : m < 2^32) (hsize : size < 2^64) (hbs : ctx.blockSize ≠ 0)
+    (hmax : size / ctx.blockSize ≤ ctx.blockMax) (hsec : sec < 2^64) (hnsec : nsec < 2^32) (hino : inode < 2^64)
+    (hsub : sub ≠ []) (hlen : sub.length + 1 ≤ PATH_MAX)
+    (hruns : RunsWF ctx (fileBlocks size ctx.blockSize) 0 runs) :
+    getRec ctx crc (serRec (.file m size sec nsec inode sub runs) ++ rest) = some (.file m size sec nsec inode sub runs, ctx, rest) := by
+  simp only [serRec, List.singleton_append, List.cons_append, List.append_assoc, List.nil_append, getRec]
+  dispatch
+  rw [b32_roundtrip _ _ hm32]; simp only
+  rw [if_neg (by omega)]
+  rw [b64_roundtrip _ _ hsize]; simp only
+  rw [if_neg hbs, if_neg (by omega)]
+  rw [b64_roundtrip _ _ hsec]; simp only
+  rw [b32_roundtrip _ _ hnsec]; simp only
+  rw [b64_roundtrip _ _ hino]; simp only
+  rw [str_roundtrip PATH_MAX sub _ hlen (by unfold PATH_MAX at hlen; omega)]; simp only
+  have hne : sub.isEmpty = false := by cases sub <;> simp_all
+  simp only [hne, Bool.false_eq_true, if_false]
+  rw [runs_roundtrip ctx _ runs 0 _ rest hruns (by
+    have := runs_ser_length runs
+    simp only [List.length_append]; omega)]
+
+/-! ### hole ('h') and info ('i') records -/
+
+def holeCount : HoleRun → Nat
+  | .deleted hs => hs.length
+  | .skip n => n
+
+def HoleWF (ctx : Ctx) : Nat → List HoleRun → Prop
+  | pos, [] => ctx.blockMax ≤ pos
+  | pos, r :: rs => pos < ctx.blockMax ∧ holeCount r < 2^32 ∧ pos + holeCount r ≤ ctx.blockMax ∧
+      (match r with | .deleted hs => ∀ x ∈ hs, x.length = ctx.hashSize | .skip _ => True) ∧ HoleWF ctx (pos + holeCount r) rs
+
+theorem hole_runs_roundtrip (ctx : Ctx) (runs : List HoleRun) (pos fuel : Nat) (rest : Bytes)
+    (h : HoleWF ctx pos runs) (hf : runs.length < fuel) :
+    getHoleRuns ctx fuel pos ((runs.map serHoleRun).flatten ++ rest) = some (runs, rest) := by
+  induction runs generalizing pos fuel with
+  | nil =>
+    cases fuel with
+    | zero => omega
+    | succ f =>
+      simp only [List.map_nil, List.flatten_nil, List.nil_append]
+      unfold getHoleRuns
+      have h' : pos ≥ ctx.blockMax := h
+      rw [if_pos h']
+  | cons r rs ih =>
+    cases fuel with
+    | zero => omega
+    | succ f =>
+      obtain ⟨hlt, hc32, hle, hh, htail⟩ := h
+      simp only [List.map_cons, List.flatten_cons, List.append_assoc]
+      unfold getHoleRuns
+      rw [if_neg (by omega)]
+      cases r with
+      | deleted hs =>
+        simp only [serHoleRun, holeCount, List.append_assoc, List.singleton_append] at *
+        rw [b32_roundtrip _ _ hc32]; simp only
+        rw [if_neg (by omega)]
+        simp only [List.cons_append, List.nil_append, if_true]
+        rw [hashes_roundtrip ctx.hashSize hs _ hh]; simp only
+        rw [ih _ f htail (by simpa using hf)]
+      | skip n =>
+        simp only [serHoleRun, holeCount, List.append_assoc, List.singleton_append] at *
+        rw [b32_roundtrip _ _ hc32]; simp only
+        rw [if_neg (by omega)]
+        try simp only [List.cons_append, List.nil_append]
+        rw [if_neg (by decide)]
+        first | rw [if_pos rfl] | simp only [if_true]
+        rw [ih _ f htail (by simpa using hf)]
+
+theorem serHoleRun_length_pos (r : HoleRun) : 0 < (serHoleRun r).length := by
+  cases r <;> simp [serHoleRun] <;> omega
+
+theorem hole_ser_length (runs : List HoleRun) : runs.length ≤ ((runs.map serHoleRun).flatten).length := by
+  induction runs with
+  | nil => simp
+  | cons r rs ih =>
+    have := serHoleRun_length_pos r
+    simp only [List.map_cons, List.flatten_cons, List.length_append, List.length_cons]
+    omega
+
+/-- the record of the DELETED blocks (with their hashes) and holes of a disk is read back exactly -/
+theorem hole_record_roundtrip (ctx : Ctx) (crc : W) (rest : Bytes) (m : Nat) (runs : List HoleRun)
+    (hm : m < ctx.mappingMax) (hm32 : m < 2^32) (hruns : HoleWF ctx 0 runs) :
+    getRec ctx crc (serRec (.hole m runs) ++ rest) = some (.hole m runs, ctx, rest) := by
+  simp only [serRec, List.cons_append, List.append_assoc, List.nil_append, getRec]
+  dispatch
+  rw [b32_roundtrip _ _ hm32]; simp only
+  rw [if_neg (by omega)]
+  rw [hole_runs_roundtrip ctx runs 0 _ rest hruns (by
+    have := hole_ser_length runs
+    simp only [List.length_append]; omega)]
+
+def InfoWF (ctx : Ctx) : Nat → List InfoRun → Prop
+  | pos, [] => ctx.blockMax ≤ pos
+  | pos, r :: rs => pos < ctx.blockMax ∧ r.count < 2^32 ∧ r.flag < 2^32 ∧ pos + r.count ≤ ctx.blockMax ∧
+      (if r.flag % 2 = 1 then r.time < 2^32 else r.time = 0) ∧ InfoWF ctx (pos + r.count) rs
+
+theorem info_runs_roundtrip (ctx : Ctx) (runs : List InfoRun) (pos fuel : Nat) (rest : Bytes)
+    (h : InfoWF ctx pos runs) (hf : runs.length < fuel) :
+    getInfoRuns ctx fuel pos ((runs.map serInfoRun).flatten ++ rest) = some (runs, rest) := by
+  induction runs generalizing pos fuel with
+  | nil =>
+    cases fuel with
+    | zero => omega
+    | succ f =>
+      simp only [List.map_nil, List.flatten_nil, List.nil_append]
+      unfold getInfoRuns
+      have h' : pos ≥ ctx.blockMax := h
+      rw [if_pos h']
+  | cons r rs ih =>
+    cases fuel with
+    | zero => omega
+    | succ f =>
+      obtain ⟨hlt, hc32, hf32, hle, ht, htail⟩ := h
+      simp only [List.map_cons, List.flatten_cons, List.append_assoc]
+      unfold getInfoRuns
+      rw [if_neg (by omega)]
+      simp only [serInfoRun, List.append_assoc]
+      rw [b32_roundtrip _ _ hc32]; simp only
+      rw [if_neg (by omega)]
+      rw [b32_roundtrip _ _ hf32]; simp only
+      by_cases hodd : r.flag % 2 = 1
+      · rw [if_pos hodd] at ht
+        simp only [hodd, if_true]
+        rw [b32_roundtrip _ _ ht]; simp only
+        rw [ih _ f htail (by simpa using hf)]
+      · rw [if_neg hodd] at ht
+        simp only [hodd, if_false, List.nil_append]
+        rw [ih _ f htail (by simpa using hf)]
+        cases r; simp only at ht; subst ht; rfl
+
+theorem serInfoRun_length_pos (r : InfoRun) : 0 < (serInfoRun r).length := by
+  have : 0 < (putVar r.count).length := by
+    unfold putVar; split <;> simp
+  simp only [serInfoRun, List.length_append]; omega
+
+theorem info_ser_length (runs : List InfoRun) : runs.length ≤ ((runs.map serInfoRun).flatten).length := by
+  induction runs with
+  | nil => simp
+  | cons r rs ih =>
+    have := serInfoRun_length_pos r
+    simp only [List.map_cons, List.flatten_cons, List.length_append, List.length_cons]
+    omega
+
+/-- the per-stripe info record (scrub time, bad, rehash, just-synced) is read back exactly -/
+theorem info_record_roundtrip (ctx : Ctx) (crc : W) (rest : Bytes) (oldest : Nat) (runs : List InfoRun)
+    (ho : oldest < 2^32) (hruns : InfoWF ctx 0 runs) :
+    getRec ctx crc (serRec (.info oldest runs) ++ rest) = some (.info oldest runs, ctx, rest) := by
+  simp only [serRec, List.cons_append, List.append_assoc, List.nil_append, getRec]
+  dispatch
+  rw [b32_roundtrip _ _ ho]; simp only
+  rw [info_runs_roundtrip ctx runs 0 _ rest hruns (by
+    have := info_ser_length runs
+    simp only [List.length_append]; omega)]
+
+/-! ### disk mapping, parity, link and hash records -/
+
+theorem str_rt (size : Nat) (x rest : Bytes) (h : x.length + 1 ≤ size) (hs : size ≤ 2^32) :
+    getStr size (putStr x ++ rest) = some (x, rest) := str_roundtrip size x rest h (by omega)
+
+theorem map_record_roundtrip (ctx : Ctx) (crc : W) (rest : Bytes) (name uuid : Bytes) (pos total free : Nat)
+    (hn : name.length + 1 ≤ PATH_MAX) (hu : uuid.length + 1 ≤ UUID_MAX)
+    (hp : pos < 2^32) (ht : total < 2^32) (hfr : free < 2^32) :
+    getRec ctx crc (serRec (.map false name pos total free uuid) ++ rest)
+      = some (.map false name pos total free uuid, { ctx with mappingMax := ctx.mappingMax + 1 }, rest) := by
+  simp only [serRec, Bool.false_eq_true, if_false, List.cons_append, List.append_assoc, List.nil_append, getRec]
+  dispatch
+  rw [str_rt PATH_MAX name _ hn (by decide)]; simp only
+  rw [b32_roundtrip _ _ hp]; simp only
+  dispatch
+  rw [b32_roundtrip _ _ ht]; simp only
+  rw [b32_roundtrip _ _ hfr]; simp only
+  rw [str_rt UUID_MAX uuid _ hu (by decide)]
+
+theorem parityP_record_roundtrip (ctx : Ctx) (crc : W) (rest : Bytes) (lev total free : Nat) (uuid : Bytes)
+    (hl : lev < LEV_MAX) (ht : total < 2^32) (hfr : free < 2^32) (hu : uuid.length + 1 ≤ UUID_MAX) :
+    getRec ctx crc (serRec (.parityP lev total free uuid) ++ rest) = some (.parityP lev total free uuid, ctx, rest) := by
+  simp only [serRec, List.cons_append, List.append_assoc, List.nil_append, getRec]
+  dispatch
+  rw [b32_roundtrip _ _ (by unfold LEV_MAX at hl; omega)]; simp only
+  rw [b32_roundtrip _ _ ht]; simp only
+  rw [b32_roundtrip _ _ hfr]; simp only
+  rw [str_rt UUID_MAX uuid _ hu (by decide)]; simp only
+  rw [if_neg (by omega)]
+
+def SplitWF (sp : Split) : Prop := sp.path.length + 1 ≤ PATH_MAX ∧ sp.uuid.length + 1 ≤ UUID_MAX ∧ sp.size < 2^64
+
+theorem splits_roundtrip (sps : List Split) (rest : Bytes) (h : ∀ x ∈ sps, SplitWF x) :
+    getSplits sps.length ((sps.map serSplit).flatten ++ rest) = some (sps, rest) := by
+  induction sps with
+  | nil => simp [getSplits]
+  | cons x xs ih =>
+    obtain ⟨h1, h2, h3⟩ := h x (List.mem_cons_self ..)
+    simp only [List.length_cons, getSplits, List.map_cons, List.flatten_cons, serSplit, List.append_assoc]
+    rw [str_rt PATH_MAX x.path _ h1 (by decide)]; simp only
+    rw [str_rt UUID_MAX x.uuid _ h2 (by decide)]; simp only
+    rw [b64_roundtrip _ _ h3]; simp only
+    rw [ih (fun y hy => h y (List.mem_cons_of_mem _ hy))]
+
+theorem serSplit_length_pos (x : Split) : 0 < (serSplit x).length := by
+  have : 0 < (putVar x.path.length).length := by unfold putVar; split <;> simp
+  simp only [serSplit, putStr, List.length_append]; omega
+
+theorem splits_ser_length (sps : List Split) : sps.length ≤ ((sps.map serSplit).flatten).length := by
+  induction sps with
+  | nil => simp
+  | cons r rs ih =>
+    have := serSplit_length_pos r
+    simp only [List.map_cons, List.flatten_cons, List.length_append, List.length_cons]
+    omega
+
+theorem parityQ_record_roundtrip (ctx : Ctx) (crc : W) (rest : Bytes) (lev total free : Nat) (sps : List Split)
+    (hl : lev < LEV_MAX) (ht : total < 2^32) (hfr : free < 2^32) (hn : sps.length < 2^32) (hs : ∀ x ∈ sps, SplitWF x) :
+    getRec ctx crc (serRec (.parityQ lev total free sps) ++ rest) = some (.parityQ lev total free sps, ctx, rest) := by
+  simp only [serRec, List.cons_append, List.append_assoc, List.nil_append, getRec]
+  dispatch
+  rw [b32_roundtrip _ _ (by unfold LEV_MAX at hl; omega)]; simp only
+  rw [b32_roundtrip _ _ ht]; simp only
+  rw [b32_roundtrip _ _ hfr]; simp only
+  rw [b32_roundtrip _ _ hn]; simp only
+  rw [if_neg (by omega)]
+  rw [if_neg (by have := splits_ser_length sps; simp only [List.length_append]; omega)]
+  rw [splits_roundtrip sps rest hs]
+
+theorem symlink_record_roundtrip (ctx : Ctx) (crc : W) (rest : Bytes) (m : Nat) (sub lt : Bytes)
+    (hm : m < ctx.mappingMax) (hm32 : m < 2^32) (hsub : sub ≠ []) (hl1 : sub.length + 1 ≤ PATH_MAX) (hl2 : lt.length + 1 ≤ PATH_MAX) :
+    getRec ctx crc (serRec (.symlink m sub lt) ++ rest) = some (.symlink m sub lt, ctx, rest) := by
+  simp only [serRec, List.cons_append, List.append_assoc, List.nil_append, getRec]
+  dispatch
+  rw [b32_roundtrip _ _ hm32]; simp only
+  rw [if_neg (by omega)]
+  rw [str_rt PATH_MAX sub _ hl1 (by decide)]; simp only
+  have hne : sub.isEmpty = false := by cases sub <;> simp_all
+  simp only [hne, Bool.false_eq_true, if_false]
+  rw [str_rt PATH_MAX lt _ hl2 (by decide)]; simp only
+  dispatch
+
+theorem hardlink_record_roundtrip (ctx : Ctx) (crc : W) (rest : Bytes) (m : Nat) (sub lt : Bytes)
+    (hm : m < ctx.mappingMax) (hm32 : m < 2^32) (hsub : sub ≠ []) (hlt : lt ≠ [])
+    (hl1 : sub.length + 1 ≤ PATH_MAX) (hl2 : lt.length + 1 ≤ PATH_MAX) :
+    getRec ctx crc (serRec (.hardlink m sub lt) ++ rest) = some (.hardlink m sub lt, ctx, rest) := by
+  simp only [serRec, List.cons_append, List.append_assoc, List.nil_append, getRec]
+  dispatch
+  rw [b32_roundtrip _ _ hm32]; simp only
+  rw [if_neg (by omega)]
+  rw [str_rt PATH_MAX sub _ hl1 (by decide)]; simp only
+  have hne : sub.isEmpty = false := by cases sub <;> simp_all
+  simp only [hne, Bool.false_eq_true, if_false]
+  rw [str_rt PATH_MAX lt _ hl2 (by decide)]; simp only
+  dispatch
+  have hne2 : lt.isEmpty = false := by cases lt <;> simp_all
+  simp only [hne2, Bool.false_eq_true, if_false]
+
+theorem hash_record_roundtrip (ctx : Ctx) (crc : W) (rest : Bytes) (k : UInt8) (seed : Bytes)
+    (hk : hashKindOk k = true) (hs : seed.length = HASH_MAX) :
+    getRec ctx crc (serRec (.hash k seed) ++ rest) = some (.hash k seed, ctx, rest) ∧
+    getRec ctx crc (serRec (.prevHash k seed) ++ rest) = some (.prevHash k seed, ctx, rest) := by
+  constructor
+  · simp only [serRec, List.cons_append, List.append_assoc, List.nil_append, getRec]
+    dispatch
+    simp only [hk, Bool.not_true, Bool.false_eq_true, if_false]
+    rw [← hs, raw_roundtrip]; simp only
+    dispatch
+  · simp only [serRec, List.cons_append, List.append_assoc, List.nil_append, getRec]
+    dispatch
+    simp only [hk, Bool.not_true, Bool.false_eq_true, if_false]
+    rw [← hs, raw_roundtrip]; simp only
+    dispatch
+
+/-- the trailing CRC record is accepted exactly when it carries the CRC of everything before it -/
+theorem crc_record_roundtrip (ctx : Ctx) (crc : W) (rest : Bytes) :
+    getRec ctx crc (serRec (.crc crc.toNat) ++ rest) = some (.crc crc.toNat, ctx, rest) := by
+  simp only [serRec, List.cons_append, List.append_assoc, List.nil_append, getRec]
+  dispatch
+  rw [le32_roundtrip _ _ (by have := crc.isLt; simpa using this)]; simp only
+  simp only [if_true]
+
+theorem crc_record_rejects (ctx : Ctx) (crc : W) (v : Nat) (rest : Bytes) (hv : v < 2^32) (hne : v ≠ crc.toNat) :
+    getRec ctx crc (serRec (.crc v) ++ rest) = none := by
+  simp only [serRec, List.cons_append, List.append_assoc, List.nil_append, getRec]
+  dispatch
+  rw [le32_roundtrip _ _ hv]; simp only
+  rw [if_neg hne]
+
+/-! ### a whole list of records, and a whole file -/
+
+/-- the records `rs`, read from context `ctx` with running CRC `crc`, each round-trip (the hypotheses
+    are exactly the conclusions of the per-record theorems above) and leave the context `ctx'` -/
+def RecsOk : Ctx → W → List Rec → Ctx → Prop
+  | ctx, _, [], ctx' => ctx' = ctx
+  | ctx, crc, r :: rs, ctx' => ∃ c body ctx1, serRec r = c :: body ∧
+      (∀ rest, getRec ctx (crc32c crc [c]) (serRec r ++ rest) = some (r, ctx1, rest)) ∧
+      RecsOk ctx1 (crc32c crc (serRec r)) rs ctx'
+
+theorem recs_roundtrip (rs : List Rec) (ctx ctx' : Ctx) (crc : W) (fuel : Nat)
+    (h : RecsOk ctx crc rs ctx') (hf : rs.length < fuel) :
+    getRecs ctx crc fuel (serBody rs) = some (rs, ctx') := by
+  induction rs generalizing ctx crc fuel with
+  | nil =>
+    cases fuel with
+    | zero => omega
+    | succ f => simp only [RecsOk] at h; subst h; simp [serBody, getRecs]
+  | cons r rs ih =>
+    cases fuel with
+    | zero => omega
+    | succ f =>
+      obtain ⟨c, body, ctx1, hser, hget, htail⟩ := h
+      have hbody : serBody (r :: rs) = serRec r ++ serBody rs := by simp [serBody]
+      rw [hbody]
+      unfold getRecs
+      have hcons : serRec r ++ serBody rs = c :: (body ++ serBody rs) := by rw [hser]; rfl
+      rw [hcons]
+      simp only
+      rw [← hcons, hget (serBody rs)]
+      simp only
+      have hadv : advCrc crc (serRec r ++ serBody rs) (serBody rs) = crc32c crc (serRec r) := by
+        unfold advCrc
+        congr 1
+        simp
+      rw [hadv, ih ctx1 (crc32c crc (serRec r)) f htail (by simpa using hf)]
+
+theorem serBody_cons (r : Rec) (rs : List Rec) : serBody (r :: rs) = serRec r ++ serBody rs := by simp [serBody]
+theorem serBody_append (a b : List Rec) : serBody (a ++ b) = serBody a ++ serBody b := by simp [serBody]
+theorem serBody_single (r : Rec) : serBody [r] = serRec r := by simp [serBody]
+
+theorem RecsOk_append_crc (rs : List Rec) (ctx ctx' : Ctx) (crc : W) (h : RecsOk ctx crc rs ctx') :
+    RecsOk ctx crc (rs ++ [.crc (crc32c crc (serBody rs ++ [ch 'N'])).toNat]) ctx' := by
+  induction rs generalizing ctx crc with
+  | nil =>
+    simp only [RecsOk] at h; subst h
+    refine ⟨ch 'N', putLe32 _, ctx', rfl, ?_, rfl⟩
+    intro rest
+    simpa [serBody] using crc_record_roundtrip ctx' (crc32c crc [ch 'N']) rest
+  | cons r rs ih =>
+    obtain ⟨c, body, ctx1, hser, hget, htail⟩ := h
+    refine ⟨c, body, ctx1, hser, hget, ?_⟩
+    have := ih ctx1 (crc32c crc (serRec r)) htail
+    have e : crc32c (crc32c crc (serRec r)) (serBody rs ++ [ch 'N']) = crc32c crc (serBody (r :: rs) ++ [ch 'N']) := by
+      rw [crc32c_append, serBody_cons, List.append_assoc]
+    rw [e] at this
+    exact this
+
+theorem magic_length : "SNAPCNT".toList.length = 7 := by decide
+theorem header_length (v : Nat) : (header v).length = 12 := by
+  unfold header
+  rw [List.length_append, List.length_map, magic_length]
+  rfl
+
+theorem serRec_length_pos (r : Rec) : 0 < (serRec r).length := by
+  cases r <;> simp [serRec]
+  split <;> simp
+
+theorem serBody_length (rs : List Rec) : rs.length ≤ (serBody rs).length := by
+  induction rs with
+  | nil => simp [serBody]
+  | cons r rs ih =>
+    have := serRec_length_pos r
+    rw [serBody_cons]; simp only [List.length_append, List.length_cons]; omega
+
+theorem hasCrc_append_crc (rs : List Rec) (c : Nat) : hasCrc (rs ++ [.crc c]) = true := by
+  induction rs with
+  | nil => rfl
+  | cons r rs ih => cases r <;> simp [hasCrc, ih]
+
+/-- **whole-file round trip**: a content file written from records that individually satisfy the
+    format's range conditions is parsed back to exactly those records (plus its CRC record) -/
+theorem file_roundtrip (v bs0 : Nat) (hv : v = 1 ∨ v = 2 ∨ v = 3) (rs : List Rec) (ctx' : Ctx)
+    (h : RecsOk { blockSize := bs0 } (crc32c 0 (header v)) rs ctx') :
+    ∃ c, parse bs0 (serFile v rs) = some { version := v, recs := rs ++ [.crc c], ctx := ctx' } := by
+  refine ⟨(crc32c (crc32c 0 (header v)) (serBody rs ++ [ch 'N'])).toNat, ?_⟩
+  have hok := RecsOk_append_crc rs _ ctx' _ h
+  generalize hC : (crc32c (crc32c 0 (header v)) (serBody rs ++ [ch 'N'])).toNat = C at hok ⊢
+  have hfile : serFile v rs = header v ++ serBody (rs ++ [.crc C]) := by
+    rw [serBody_append, serBody_single]
+    show (header v ++ serBody rs ++ [ch 'N']) ++ putLe32 (crc32c 0 (header v ++ serBody rs ++ [ch 'N'])).toNat = _
+    have e : (crc32c 0 (header v ++ serBody rs ++ [ch 'N'])).toNat = C := by
+      rw [← hC, crc32c_append, List.append_assoc]
+    rw [e]
+    simp [serRec, List.append_assoc]
+  unfold parse
+  rw [hfile]
+  have hlen : ¬ (header v ++ serBody (rs ++ [.crc C])).length < 12 := by
+    simp only [List.length_append, header_length]; omega
+  rw [if_neg hlen]
+  have htake : (header v ++ serBody (rs ++ [.crc C])).take 12 = header v := by
+    rw [← header_length v, List.take_left]
+  have hdrop : (header v ++ serBody (rs ++ [.crc C])).drop 12 = serBody (rs ++ [.crc C]) := by
+    rw [← header_length v, List.drop_left]
+  simp only [htake, hdrop]
+  have hver : (if header v = header 1 then some 1 else if header v = header 2 then some 2 else if header v = header 3 then some 3 else none) = some v := by
+    rcases hv with rfl | rfl | rfl <;> decide
+  rw [hver]
+  simp only
+  rw [recs_roundtrip _ _ ctx' _ _ hok (by have := serBody_length (rs ++ [Rec.crc C]); omega)]
+  simp only [hasCrc_append_crc, if_true]
+
+/-! ### one explicit well-formedness predicate for everything the writer emits -/
+
+/-- range conditions of one record in reader context `ctx` (what `state_write` guarantees by
+    construction: counters fit their field, names are non-empty and shorter than PATH_MAX, block runs
+    cover the file, positions are inside blockmax, hashes have the configured size) -/
+def recWF (ctx : Ctx) : Rec → Prop
+  | .blockSize v => 0 < v ∧ v < 2^32
+  | .blockMax v => v < 2^32
+  | .hashSize v => 2 ≤ v ∧ v ≤ 16
+  | .hash k seed => hashKindOk k = true ∧ seed.length = HASH_MAX
+  | .prevHash k seed => hashKindOk k = true ∧ seed.length = HASH_MAX
+  | .map legacy name pos total free uuid => legacy = false ∧ name.length + 1 ≤ PATH_MAX ∧ uuid.length + 1 ≤ UUID_MAX ∧
+      pos < 2^32 ∧ total < 2^32 ∧ free < 2^32
+  | .parityP lev total free uuid => lev < LEV_MAX ∧ total < 2^32 ∧ free < 2^32 ∧ uuid.length + 1 ≤ UUID_MAX
+  | .parityQ lev total free sps => lev < LEV_MAX ∧ total < 2^32 ∧ free < 2^32 ∧ sps.length < 2^32 ∧ ∀ x ∈ sps, SplitWF x
+  | .file m size sec nsec inode sub runs => m < ctx.mappingMax ∧ m < 2^32 ∧ size < 2^64 ∧ ctx.blockSize ≠ 0 ∧
+      size / ctx.blockSize ≤ ctx.blockMax ∧ sec < 2^64 ∧ nsec < 2^32 ∧ inode < 2^64 ∧ sub ≠ [] ∧ sub.length + 1 ≤ PATH_MAX ∧
+      RunsWF ctx (fileBlocks size ctx.blockSize) 0 runs
+  | .symlink m sub lt => m < ctx.mappingMax ∧ m < 2^32 ∧ sub ≠ [] ∧ sub.length + 1 ≤ PATH_MAX ∧ lt.length + 1 ≤ PATH_MAX
+  | .hardlink m sub lt => m < ctx.mappingMax ∧ m < 2^32 ∧ sub ≠ [] ∧ lt ≠ [] ∧ sub.length + 1 ≤ PATH_MAX ∧ lt.length + 1 ≤ PATH_MAX
+  | .dir m sub => m < ctx.mappingMax ∧ m < 2^32 ∧ sub ≠ [] ∧ sub.length + 1 ≤ PATH_MAX
+  | .hole m runs => m < ctx.mappingMax ∧ m < 2^32 ∧ HoleWF ctx 0 runs
+  | .info oldest runs => oldest < 2^32 ∧ InfoWF ctx 0 runs
+  | .crc _ => False      -- the CRC record is appended by the writer, not part of the state
+
+/-- the reader context after the record -/
+def recCtx (ctx : Ctx) : Rec → Ctx
+  | .blockSize v => { ctx with blockSize := v }
+  | .blockMax v => { ctx with blockMax := v }
+  | .hashSize v => { ctx with hashSize := v }
+  | .map _ _ _ _ _ _ => { ctx with mappingMax := ctx.mappingMax + 1 }
+  | _ => ctx
+
+theorem rec_roundtrip (ctx : Ctx) (crc : W) (r : Rec) (h : recWF ctx r) (rest : Bytes) :
+    getRec ctx crc (serRec r ++ rest) = some (r, recCtx ctx r, rest) := by
+  cases r with
+  | blockSize v => exact (simple_records_roundtrip ctx crc rest).1 v h.1 h.2
+  | blockMax v => exact (simple_records_roundtrip ctx crc rest).2.1 v h
+  | hashSize v => exact (simple_records_roundtrip ctx crc rest).2.2.1 v h.1 h.2
+  | hash k seed => exact (hash_record_roundtrip ctx crc rest k seed h.1 h.2).1
+  | prevHash k seed => exact (hash_record_roundtrip ctx crc rest k seed h.1 h.2).2
+  | map legacy name pos total free uuid =>
+    obtain ⟨hl, h1, h2, h3, h4, h5⟩ := h
+    subst hl
+    exact map_record_roundtrip ctx crc rest name uuid pos total free h1 h2 h3 h4 h5
+  | parityP lev total free uuid =>
+    obtain ⟨h1, h2, h3, h4⟩ := h
+    exact parityP_record_roundtrip ctx crc rest lev total free uuid h1 h2 h3 h4
+  | parityQ lev total free sps =>
+    obtain ⟨h1, h2, h3, h4, h5⟩ := h
+    exact parityQ_record_roundtrip ctx crc rest lev total free sps h1 h2 h3 h4 h5
+  | file m size sec nsec inode sub runs =>
+    obtain ⟨h1, h2, h3, h4, h5, h6, h7, h8, h9, h10, h11⟩ := h
+    exact file_record_roundtrip ctx crc rest m size sec nsec inode sub runs h1 h2 h3 h4 h5 h6 h7 h8 h9 h10 h11
+  | symlink m sub lt =>
+    obtain ⟨h1, h2, h3, h4, h5⟩ := h
+    exact symlink_record_roundtrip ctx crc rest m sub lt h1 h2 h3 h4 h5
+  | hardlink m sub lt =>
+    obtain ⟨h1, h2, h3, h4, h5, h6⟩ := h
+    exact hardlink_record_roundtrip ctx crc rest m sub lt h1 h2 h3 h4 h5 h6
+  | dir m sub =>
+    obtain ⟨h1, h2, h3, h4⟩ := h
+    exact (simple_records_roundtrip ctx crc rest).2.2.2 m sub h1 h2 h3 h4
+  | hole m runs => exact hole_record_roundtrip ctx crc rest m runs h.1 h.2.1 h.2.2
+  | info oldest runs => exact info_record_roundtrip ctx crc rest oldest runs h.1 h.2
+  | crc v => exact absurd h id
+
+/-- every record of the list is well formed in the context left by its predecessors -/
+def RecsWF : Ctx → List Rec → Prop
+  | _, [] => True
+  | ctx, r :: rs => recWF ctx r ∧ RecsWF (recCtx ctx r) rs
+
+def ctxAfter : Ctx → List Rec → Ctx
+  | ctx, [] => ctx
+  | ctx, r :: rs => ctxAfter (recCtx ctx r) rs
+
+theorem RecsOk_of_wf (rs : List Rec) (ctx : Ctx) (crc : W) (h : RecsWF ctx rs) : RecsOk ctx crc rs (ctxAfter ctx rs) := by
+  induction rs generalizing ctx crc with
+  | nil => rfl
+  | cons r rs ih =>
+    have hpos := serRec_length_pos r
+    cases hser : serRec r with
+    | nil => rw [hser] at hpos; simp at hpos
+    | cons c body =>
+      refine ⟨c, body, recCtx ctx r, hser, ?_, ?_⟩
+      · intro rest; exact rec_roundtrip ctx _ r h.1 rest
+      · exact ih _ _ h.2
+
+/-- **C10, codec level**: whatever state the writer serialises (any number of disks, files, block
+    runs in any state, deleted-block records, per-stripe info, split parities), the reader parses
+    the file back to exactly the same records -/
+theorem content_roundtrip (v bs0 : Nat) (hv : v = 1 ∨ v = 2 ∨ v = 3) (rs : List Rec)
+    (h : RecsWF { blockSize := bs0 } rs) :
+    ∃ c, parse bs0 (serFile v rs) = some { version := v, recs := rs ++ [.crc c], ctx := ctxAfter { blockSize := bs0 } rs } :=
+  file_roundtrip v bs0 hv rs _ (RecsOk_of_wf rs _ _ h)
+
+/-! non-vacuity: a small state (one disk, one two-block file with a synced and a pending block,
+    a deleted block, per-stripe info) satisfies the hypotheses -/
+def demoHash : Bytes := List.replicate 16 7
+def demoRecs : List Rec :=
+  [.blockSize 1024, .hashSize 16, .blockMax 3, .map false [100, 49] 0 10 5 [117],
+   .file 0 1500 1600000000 123456790 42 [97, 47, 98] [⟨.blk, 0, 1, [demoHash]⟩, ⟨.chg, 1, 1, [demoHash]⟩],
+   .hole 0 [.skip 2, .deleted [demoHash]],
+   .info 100 [⟨2, 1, 5⟩, ⟨1, 0, 0⟩]]
+
+example : RecsWF { blockSize := 0 } demoRecs := by
+  simp [RecsWF, demoRecs, recWF, recCtx, RunsWF, runWF, HoleWF, InfoWF, holeCount, fileBlocks, PATH_MAX, UUID_MAX, demoHash]
+
 
 end SnapraidVerif.Props.C10
